@@ -16,15 +16,21 @@ def gref(n):
     return "<%s%s>" % (PFX, n)
 
 
-def quads_text(quads):
+def quads_text(quads, split=False):
     """template / data quads grouped: default part then GRAPH blocks"""
     out = []
     by = {}
+    runs = []
     for q in quads:
         g = q[3]
         key = g["v"] if g["k"] == "g" else "?" + g["v"]
         by.setdefault(key, []).append(q)
-    for key, qs in by.items():
+        if runs and runs[-1][0] == key:
+            runs[-1][1].append(q)
+        else:
+            runs.append((key, [q]))
+    # split: keep the author's order, one block per run - the same graph may then be named by several GRAPH blocks
+    for key, qs in (runs if split else by.items()):
         body = " ".join("%s %s %s ." % (t_text(q[0]), t_text(q[1]), t_text(q[2])) for q in qs)
         if key == "" or key == "D":
             out.append(body)
@@ -46,19 +52,19 @@ def gd(t):
 def op_text(u):
     k = u["u"]
     if k == "insertdata":
-        return "INSERT DATA { %s }" % quads_text(u["quads"])
+        return "INSERT DATA { %s }" % quads_text(u["quads"], u.get("split", False))
     if k == "deletedata":
-        return "DELETE DATA { %s }" % quads_text(u["quads"])
+        return "DELETE DATA { %s }" % quads_text(u["quads"], u.get("split", False))
     if k == "deletewhere":
-        return "DELETE WHERE { %s }" % quads_text(u["quads"])
+        return "DELETE WHERE { %s }" % quads_text(u["quads"], u.get("split", False))
     if k == "modify":
         s = ""
         if u["with"]:
             s += "WITH %s " % gref(u["with"])
         if u["del"]:
-            s += "DELETE { %s } " % quads_text(u["del"])
+            s += "DELETE { %s } " % quads_text(u["del"], u.get("split", False))
         if u["ins"]:
-            s += "INSERT { %s } " % quads_text(u["ins"])
+            s += "INSERT { %s } " % quads_text(u["ins"], u.get("split", False))
         for g in u["using"]:
             s += "USING %s " % gref(g)
         for g in u["usingnamed"]:
